@@ -750,7 +750,7 @@ theorem foldl_aor_flags (xs fs : List Field) (hxs : ∀ f ∈ xs, f.isGet = fals
   induction xs generalizing fs with
   | nil => exact hfs
   | cons x xs ih =>
-    exact ih (fun f hf => hxs f (List.mem_cons_of_mem _ hf)) _ (aor_flags fs x hfs (hxs x List.mem_cons_self))
+    exact ih _ (fun f hf => hxs f (List.mem_cons_of_mem _ hf)) (aor_flags fs x hfs (hxs x List.mem_cons_self))
 
 theorem sideFields_plain_flags (t : Tree) : ∀ f ∈ sideFields t false, f.isGet = false ∧ f.isSet = false := by
   intro f hf
